@@ -7,7 +7,7 @@
 (* positions.  Each configured program is evaluated three times in a row   *)
 (* (the h counter carries over), every machine step is a TLC state.        *)
 (***************************************************************************)
-EXTENDS Machine
+EXTENDS Machine, Json
 
 CONSTANT Big
 
@@ -102,4 +102,6 @@ NotBaked ==
   /\ (s.st = "done" => Match(Unfast(T), env, s.eff, mask.fe))
   /\ \A i \in 1..Len(lens) : lens[i] = lens[1]
   /\ (s.st = "done" /\ Len(lens) > 0 => Len(s.eff) = lens[1])
+\* every tree of the bounded set is printed once, for replay against the real code
+EmitTrees == (s.st = "cfg") => PrintT("CASE " \o ToJson(tree))
 =============================================================================
